@@ -144,6 +144,9 @@ def render_stmt(prog, here_mod, k, st, in_class=False):
     kind = st[0]
     if kind == "var":
         v = prog["vars"][st[1]]
+        if len(st) > 2 and st[2] == "modattr_local" and v["mod"] != here_mod:
+            # ... and bound to a local variable that carries the name of the attribute: VA = m0.VA
+            return [f"{v['name']} = {prog['mods'][v['mod']]}.{v['name']}", f"r{k} = {v['name']}"]
         if len(st) > 2 and st[2] == "modattr" and v["mod"] != here_mod:
             return [f"r{k} = {prog['mods'][v['mod']]}.{v['name']}"]     # read through the module: m0.VA
         if len(st) > 2 and st[2] == "method":
@@ -251,7 +254,7 @@ def render_module(prog, mi, as_blocks=False):
                 for il in ("from pathlib import Path", f"{pathvar_name(st[1])} = Path({st[1]!r})"):
                     if il not in imports:
                         imports.append(il)
-            if st[0] == "var" and len(st) > 2 and st[2] == "modattr" and prog["vars"][st[1]]["mod"] != mi:
+            if st[0] == "var" and len(st) > 2 and st[2] in ("modattr", "modattr_local") and prog["vars"][st[1]]["mod"] != mi:
                 il = f"from {pkg} import {prog['mods'][prog['vars'][st[1]]['mod']]}"
                 if il not in imports:
                     imports.append(il)
